@@ -171,6 +171,9 @@ def main(argv):
         for f in concurrent.futures.as_completed(futs):
             u = futs[f]
             results[u["name"]] = f.result()
+    if os.environ.get("VERIF_TIMES"):
+        for n, r in sorted(results.items(), key=lambda kv: -(kv[1].get("solver_s") or 0))[:12]:
+            print("TIME %-40s solver=%.1fs wall=%.1fs cached=%s" % (n, r.get("solver_s") or 0, r.get("wall") or 0, r.get("cached")))
     known = load_known()
     violations = []
     known_hits = []
